@@ -168,3 +168,16 @@ Definition succ_e2e_ok (e : ecase) (s : Z * Z * Z) : bool :=
 
 Definition ok_e2e (e : ecase) : bool := forallb (succ_e2e_ok e) (ec_succ e).
 Definition mismatches_e2e := mismatches ok_e2e.
+
+(* ---------------------------------------------------------------- (c) what a broker worker does with a received message *)
+(* read off the hook points of brokerProducer.run: flags of the message, bp.closing != nil, currentRetries entry non-nil,
+   and what followed: 0 nothing (syn consumed), 1 bounced (retry / error without reaching add), 2 went on to add
+   (waitForSpace or a successful buffer.add), 3 add refused it (sequence assertion / encoder error) *)
+Record rcase := mkRCase { rc_flags : Z; rc_closing : bool; rc_retrying : bool; rc_obs : Z }.
+Definition ok_recv (r : rcase) : bool :=
+  match recv_decision FIN_FIX (rc_flags r) (rc_closing r) (rc_retrying r) with
+  | 0 => rc_obs r =? 0
+  | 1 => rc_obs r =? 1
+  | _ => (rc_obs r =? 2) || (rc_obs r =? 3)
+  end.
+Definition mismatches_recv := mismatches ok_recv.
